@@ -4,7 +4,7 @@
 # at the copy, and writes /verif/seeded/<seed>/detection.txt. (Same checks as `git -C /repo apply` + run + checkout,
 # without blocking /repo.)  usage: seed_matrix.sh [seed...]
 cd /verif
-related() { case $1 in C33) echo "C33 C27";; C27) echo "C27 C29";; C29) echo "C29 C27";; C35) echo "C35 C36";; C28) echo "C28 C33";; *) echo "$1";; esac; }
+related() { case $1 in C33) echo "C33 C27";; C27) echo "C27 C29";; C29) echo "C29 C27";; C35) echo "C35 C36";; C28) echo "C28 C33";; C06) echo "C06 C08 C07";; C07) echo "C07 C06";; C08) echo "C08 C07 C06";; C23) echo "C28";; *) echo "$1";; esac; }
 claimed=$(python3 -c "import json;print(' '.join(c['property_id'] for c in json.load(open('MANIFEST.json'))['checks']))")
 seeds="$@"; [ -z "$seeds" ] && seeds=$(ls seeded)
 one() {
